@@ -1,7 +1,7 @@
 //! vharness — runs the real srtla_send code on generated inputs and writes Coq case
 //! files (inputs + observed implementation behaviour) for the per-property evaluators.
 mod common;
-mod c15;
+include!(concat!(env!("OUT_DIR"), "/registry.rs"));
 
 use std::path::PathBuf;
 
@@ -27,9 +27,9 @@ fn main() {
         i += 2;
     }
     common::quiet_panics();
-    let r = match prop.as_str() {
-        "C15" => c15::run(seed, &tier, &out, &extra),
-        _ => {
+    let r = match dispatch(prop.as_str(), seed, &tier, &out, &extra) {
+        Some(r) => r,
+        None => {
             eprintln!("unknown property {}", prop);
             std::process::exit(2);
         }
